@@ -29,6 +29,7 @@ type Thread struct {
 	// disabled blocking operation at the end of the run (deadlock queries)
 	Blocked *Term
 	BlockedAt []BlockRec
+	NoWait  bool // this thread must never wait: a disabled blocking operation or a spin is a violation (C16 readers)
 }
 
 type BlockRec struct {
@@ -102,6 +103,10 @@ func (x *Exec) blocking(g *Term, en *Term, enLater func() *Term, what string, po
 		return
 	}
 	t := x.thr
+	if t.NoWait {
+		x.oblige("blocked", x.U.And(g, x.U.Not(en)), what+": a reader would have to wait for a stalled writer", pos)
+		return
+	}
 	x.Assume(g, en, "")
 	// parked here at the end of the run: path reaches this op, C == final Hi
 	if t.Round == x.Cfg.Rounds && enLater != nil {
@@ -230,4 +235,40 @@ func (x *Exec) raceRecord(p PtrV, n int, g *Term, write, atomic bool, pos token.
 
 func (x *Exec) intrinsic2(f *frame, ins ssa.Instruction, fn *ssa.Function, name string, args []Value, g *Term) (Value, bool) {
 	return nil, false
+}
+
+
+// parStalled: thread 0 (the writer) runs an arbitrary prefix of its visible
+// operations and is then stalled for ever; thread 1 (the reader) runs alone
+// and must complete without ever waiting.
+func (x *Exec) parStalled(f *frame, ins ssa.Instruction, w, r FuncV, g *Term) {
+	u := x.U
+	if x.thr != nil {
+		x.fail("nested VxPar")
+	}
+	x.Cfg.Rounds = 1
+	base := len(x.Threads)
+	mk := func(id int) *Thread {
+		return &Thread{ID: id, Regs: map[string]Value{}, Allocs: map[string]int{}, Inputs: map[string]thrInput{}, ObsIdx: map[string]int{}, Round: 1, Lo: u.Const(cntW, 0)}
+	}
+	tw, tr := mk(base), mk(base+1)
+	x.Threads = append(x.Threads, tw, tr)
+	nv := u.Var(fmt.Sprintf("sched.t%d.r1", base), 8)
+	tw.Ns = []*Term{nv}
+	tw.Hi = u.Zext(nv, cntW)
+	tw.C = u.Const(cntW, 0)
+	x.thr = tw
+	if len(w.Alts) != 1 || len(r.Alts) != 1 {
+		x.fail("VxParStalled needs two plain closures")
+	}
+	x.CallFunction(w.Alts[0].Fn, nil, w.Alts[0].Binds, g, fmt.Sprintf("thr%d", base))
+	tw.CEnd = tw.C
+	tr.Ns = []*Term{u.Const(8, 255)}
+	tr.Hi = u.Const(cntW, 0xFFF0)
+	tr.C = u.Const(cntW, 0)
+	tr.NoWait = true
+	x.thr = tr
+	x.CallFunction(r.Alts[0].Fn, nil, r.Alts[0].Binds, g, fmt.Sprintf("thr%d", base+1))
+	tr.CEnd = tr.C
+	x.thr = nil
 }
